@@ -233,7 +233,7 @@ func run(c *vf.Ctx) {
 	c.Extra("git_invocations", gitx.Calls.Load())
 	c.Floor("entries appended by go-git and listed by git", c.Counter("appended_entries_listed"), c.N(450, 8000))
 	c.Floor("git-written reflog entries decoded by go-git", c.Counter("git_written_entries_compared"), c.N(120, 1800))
-	c.Floor("message normalisations confirmed by git update-ref -m", c.Counter("git_normalise_confirmations"), c.N(15, 150))
+	c.Floor("message normalisations confirmed by git update-ref -m", c.Counter("git_normalise_confirmations"), c.N(8, 120))
 	c.Floor("distinct git command kinds writing reflogs", c.SeenCount("git_ops"), 8)
 	c.Assume("git log -g --date=raw prints the zone through an int (%+05d): -0000 is shown as +0000 by git itself, so the sign of a zero offset is not compared")
 	c.Assume("timestamp 0 is not generated: git's reflog reader (files-backend show_one_reflog_ent) treats a line whose timestamp parses to 0 as corrupt and silently skips it")
